@@ -1,10 +1,29 @@
 import ArimModel.RayGeom
-/-! # C05 — ray geometry: leg lengths, travel time and angle conventions are as documented -/
+import ArimProofs.C17
+import Mathlib.Analysis.SpecialFunctions.Trigonometric.Inverse
+import Mathlib.Analysis.SpecialFunctions.Complex.Arg
+import Mathlib.Analysis.SpecialFunctions.Sqrt
+import Mathlib.Algebra.BigOperators.Group.List.Basic
+import Mathlib.Tactic.NormNum
+import Mathlib.Tactic.Linarith
+import Mathlib.Tactic.Ring
+/-! # C05 — ray geometry: leg lengths, travel time and angle conventions are as documented
+
+1. rules read off the model (signed angle, conventional angle, leg size);
+2. reversal: every incoming quantity at interface `k` is the outgoing quantity at interface
+   `n-1-k` of the reversed path, and conversely; reversal is an involution;
+3. the first interface has no incoming leg, the last no outgoing leg, all others have both;
+4. travel time is the left-associated sum of `size_k / v_k`;
+5. over `ℝ`: ranges of the unsigned, conventional and signed angles, leg size = Euclidean
+   distance, leg length independent of the (orthonormal) local frame;
+6. non-vacuity examples. -/
 namespace Arim.C05
 open Arim Arim.Geo Arim.RayGeom
 
+section rules
 variable {α : Type} [Add α] [Sub α] [Mul α] [Div α] [Neg α] [LT α] [DecidableLT α] [LE α] [DecidableLE α]
 
+set_option linter.unusedSectionVars false in
 /-- **Signed-angle rule.** `+θ` when the azimuth lies in `(−π/2, π/2]`, `−θ` otherwise. -/
 theorem signed_rule (t : Trig α) (polar az : α) :
     signedLegAngle t polar az = if (-(t.pi / t.two) < az ∧ az ≤ t.pi / t.two) then polar else -polar := rfl
@@ -22,4 +41,457 @@ theorem conventional_undeclared (t : Trig α) (here : Node α) (other : P3 α) :
 theorem leg_size_eq (t : Trig α) (here : Node α) (other : P3 α) (side : Option Bool) :
     (legAt t here other side).size = norm2 t (vsub other here.p) := rfl
 
+end rules
+
+
+section structural
+variable {α : Type} [Add α] [Sub α] [Mul α] [Div α] [Neg α] [LT α] [DecidableLT α] [LE α] [DecidableLE α]
+
+/-- the per-node operation of `Interface.reverse`: swap the two normal-side flags -/
+def flipNode (nd : Node α) : Node α := { nd with incSide := nd.outSide, outSide := nd.incSide }
+
+omit [Add α] [Sub α] [Mul α] [Div α] [Neg α] [LT α] [DecidableLT α] [LE α] [DecidableLE α] in
+theorem reverseRay_eq (ray : List (Node α)) : RayGeom.reverseRay ray = (ray.map flipNode).reverse := rfl
+
+omit [Add α] [Sub α] [Mul α] [Div α] [Neg α] [LT α] [DecidableLT α] [LE α] [DecidableLE α] in
+theorem flipNode_flipNode (nd : Node α) : flipNode (flipNode nd) = nd := rfl
+
+omit [Add α] [Sub α] [Mul α] [Div α] [Neg α] [LT α] [DecidableLT α] [LE α] [DecidableLE α] in
+@[simp] theorem reverseRay_length (ray : List (Node α)) : (RayGeom.reverseRay ray).length = ray.length := by
+  simp [reverseRay_eq]
+
+omit [Add α] [Sub α] [Mul α] [Div α] [Neg α] [LT α] [DecidableLT α] [LE α] [DecidableLE α] in
+/-- **Reversal is an involution** -/
+theorem reverseRay_involutive (ray : List (Node α)) : RayGeom.reverseRay (RayGeom.reverseRay ray) = ray := by
+  simp only [reverseRay_eq, List.map_reverse, List.reverse_reverse, List.map_map]
+  conv_rhs => rw [← List.map_id ray]
+  apply List.map_congr_left
+  intro nd _
+  rfl
+
+omit [Add α] [Sub α] [Mul α] [Div α] [Neg α] [LT α] [DecidableLT α] [LE α] [DecidableLE α] in
+/-- reversal maps position `i` to position `n-1-i` (and swaps the flags of that node) -/
+theorem reverseRay_getElem? (ray : List (Node α)) (i : Nat) (hi : i < ray.length) :
+    (RayGeom.reverseRay ray)[i]? = (ray[ray.length - 1 - i]?).map flipNode := by
+  rw [reverseRay_eq, List.getElem?_reverse (by simpa using hi)]
+  simp
+
+omit [Add α] [Sub α] [Mul α] [Div α] [Neg α] [LT α] [DecidableLT α] [LE α] [DecidableLE α] in
+theorem reverseRay_getElem?_none (ray : List (Node α)) (i : Nat) (hi : ray.length ≤ i) :
+    (RayGeom.reverseRay ray)[i]? = none := by
+  simp [hi]
+
+/-- the leg seen from a node does not depend on that node's flags, only on the `side` passed -/
+theorem legAt_flipNode (t : Trig α) (here : Node α) (other : P3 α) (side : Option Bool) :
+    legAt t (flipNode here) other side = legAt t here other side := rfl
+
+/-- **Incoming = outgoing of the reversed path.** -/
+theorem inc_eq_out_reversed (t : Trig α) (ray : List (Node α)) (k : Nat) (hk : k < ray.length) :
+    incLeg t ray k = outLeg t (RayGeom.reverseRay ray) (ray.length - 1 - k) := by
+  unfold incLeg outLeg
+  by_cases h0 : k = 0
+  · subst h0
+    rw [reverseRay_getElem?_none ray (ray.length - 1 - 0 + 1) (by omega)]
+    simp
+  · rw [if_neg h0]
+    rw [reverseRay_getElem? ray _ (by omega), reverseRay_getElem? ray _ (by omega)]
+    have e1 : ray.length - 1 - (ray.length - 1 - k) = k := by omega
+    have e2 : ray.length - 1 - (ray.length - 1 - k + 1) = k - 1 := by omega
+    rw [e1, e2]
+    have h1 : ray[k]? = some ray[k] := List.getElem?_eq_getElem hk
+    have h2 : ray[k - 1]? = some (ray[k - 1]'(by omega)) := List.getElem?_eq_getElem (by omega)
+    rw [h1, h2]
+    rfl
+
+theorem out_eq_inc_reversed (t : Trig α) (ray : List (Node α)) (k : Nat) (hk : k < ray.length) :
+    outLeg t ray k = incLeg t (RayGeom.reverseRay ray) (ray.length - 1 - k) := by
+  unfold incLeg outLeg
+  by_cases h0 : k + 1 = ray.length
+  · have : ray.length - 1 - k = 0 := by omega
+    rw [this, if_pos rfl]
+    have : ray[k + 1]? = none := by simp; omega
+    rw [this]
+    split <;> simp_all
+  · rw [if_neg (by omega)]
+    rw [reverseRay_getElem? ray _ (by omega), reverseRay_getElem? ray _ (by omega)]
+    have e1 : ray.length - 1 - (ray.length - 1 - k) = k := by omega
+    have e2 : ray.length - 1 - (ray.length - 1 - k - 1) = k + 1 := by omega
+    rw [e1, e2]
+    have h1 : ray[k]? = some ray[k] := List.getElem?_eq_getElem hk
+    have h2 : ray[k + 1]? = some (ray[k + 1]'(by omega)) := List.getElem?_eq_getElem (by omega)
+    rw [h1, h2]
+    rfl
+
+
+/-- the first interface has no incoming leg (no hypothesis on the ray is needed) -/
+theorem first_has_no_inc (t : Trig α) (ray : List (Node α)) : incLeg t ray 0 = none := rfl
+
+/-- the last interface has no outgoing leg (also true, trivially, for the empty ray) -/
+theorem last_has_no_out (t : Trig α) (ray : List (Node α)) : outLeg t ray (ray.length - 1) = none := by
+  unfold outLeg
+  cases ray with
+  | nil => rfl
+  | cons a l =>
+    have : (a :: l)[(a :: l).length - 1 + 1]? = none := by simp
+    rw [this]
+    split <;> simp_all
+
+/-- the incoming leg exists exactly at the interfaces `1 ≤ k < n` -/
+theorem inc_isSome_iff (t : Trig α) (ray : List (Node α)) (k : Nat) :
+    (incLeg t ray k).isSome ↔ 0 < k ∧ k < ray.length := by
+  unfold incLeg
+  by_cases h0 : k = 0
+  · simp [h0]
+  · rw [if_neg h0]
+    by_cases hk : k < ray.length
+    · have h1 : ray[k]? = some ray[k] := List.getElem?_eq_getElem hk
+      have h2 : ray[k - 1]? = some (ray[k - 1]'(by omega)) := List.getElem?_eq_getElem (by omega)
+      rw [h1, h2]
+      simp; omega
+    · have h1 : ray[k]? = none := by simp; omega
+      rw [h1]
+      simp; omega
+
+/-- the outgoing leg exists exactly at the interfaces `k < n - 1` -/
+theorem out_isSome_iff (t : Trig α) (ray : List (Node α)) (k : Nat) :
+    (outLeg t ray k).isSome ↔ k + 1 < ray.length := by
+  unfold outLeg
+  by_cases hk : k + 1 < ray.length
+  · have h1 : ray[k]? = some (ray[k]'(by omega)) := List.getElem?_eq_getElem (by omega)
+    have h2 : ray[k + 1]? = some (ray[k + 1]'hk) := List.getElem?_eq_getElem hk
+    rw [h1, h2]
+    simp [hk]
+  · have h1 : ray[k + 1]? = none := by simp; omega
+    rw [h1]
+    simp only [hk, iff_false]
+    split <;> simp_all
+
+/-- explicit value of the incoming leg at an inner/last interface -/
+theorem incLeg_eq (t : Trig α) (ray : List (Node α)) (k : Nat) (h0 : 0 < k) (hk : k < ray.length) :
+    incLeg t ray k = some (legAt t ray[k] (ray[k - 1]'(by omega)).p ray[k].incSide) := by
+  unfold incLeg
+  rw [if_neg (by omega)]
+  have h1 : ray[k]? = some ray[k] := List.getElem?_eq_getElem hk
+  have h2 : ray[k - 1]? = some (ray[k - 1]'(by omega)) := List.getElem?_eq_getElem (by omega)
+  rw [h1, h2]
+
+/-- explicit value of the outgoing leg at a first/inner interface -/
+theorem outLeg_eq (t : Trig α) (ray : List (Node α)) (k : Nat) (hk : k + 1 < ray.length) :
+    outLeg t ray k = some (legAt t (ray[k]'(by omega)) (ray[k + 1]'hk).p (ray[k]'(by omega)).outSide) := by
+  unfold outLeg
+  have h1 : ray[k]? = some (ray[k]'(by omega)) := List.getElem?_eq_getElem (by omega)
+  have h2 : ray[k + 1]? = some (ray[k + 1]'hk) := List.getElem?_eq_getElem hk
+  rw [h1, h2]
+
+end structural
+
+section travel
+variable {α : Type} [Add α] [Sub α] [Mul α] [Div α]
+
+/-- the list of leg sizes `size_k = ‖p_{k-1} − p_k‖`, `k = 1 … n-1` -/
+def legSizes (t : Trig α) (ray : List (Node α)) : List α :=
+  List.zipWith (fun a b => norm2 t (vsub a.p b.p)) ray ray.tail
+
+omit [Div α] in
+@[simp] theorem legSizes_cons_cons (t : Trig α) (a b : Node α) (rest : List (Node α)) :
+    legSizes t (a :: b :: rest) = norm2 t (vsub a.p b.p) :: legSizes t (b :: rest) := rfl
+
+omit [Div α] in
+@[simp] theorem legSizes_length (t : Trig α) (ray : List (Node α)) : (legSizes t ray).length = ray.length - 1 := by
+  simp [legSizes]
+
+theorem go_eq (t : Trig α) (prev : Node α) (rest : List (Node α)) (vs : List α) (acc : α)
+    (h : vs.length = rest.length) :
+    travelTime.go t prev rest vs acc =
+      some ((List.zipWith (fun s v => s / v) (legSizes t (prev :: rest)) vs).foldl (· + ·) acc) := by
+  induction rest generalizing prev vs acc with
+  | nil =>
+    cases vs with
+    | nil => simp [travelTime.go, legSizes]
+    | cons v vs => simp at h
+  | cons nd rest ih =>
+    cases vs with
+    | nil => simp at h
+    | cons v vs =>
+      simp only [List.length_cons, Nat.add_right_cancel_iff] at h
+      rw [travelTime.go, ih nd vs _ h]
+      simp
+
+theorem go_none (t : Trig α) (prev : Node α) (rest : List (Node α)) (vs : List α) (acc : α)
+    (h : vs.length ≠ rest.length) : travelTime.go t prev rest vs acc = none := by
+  induction rest generalizing prev vs acc with
+  | nil =>
+    cases vs with
+    | nil => simp at h
+    | cons v vs => simp [travelTime.go]
+  | cons nd rest ih =>
+    cases vs with
+    | nil => simp [travelTime.go]
+    | cons v vs =>
+      rw [travelTime.go]
+      exact ih nd vs _ (by simpa using h)
+
+/-- **Travel time = left-associated sum of `size_k / v_k`.** -/
+theorem travelTime_eq_sum (t : Trig α) (a b : Node α) (rest : List (Node α)) (v : α) (vs : List α)
+    (h : vs.length = rest.length) :
+    travelTime t (a :: b :: rest) (v :: vs) =
+      some ((List.zipWith (fun s v => s / v) (legSizes t (b :: rest)) vs).foldl (· + ·)
+        (norm2 t (vsub a.p b.p) / v)) := by
+  rw [travelTime]
+  exact go_eq t b rest vs _ h
+
+theorem travelTime_isSome_iff (t : Trig α) (ray : List (Node α)) (vels : List α) :
+    (travelTime t ray vels).isSome ↔ 2 ≤ ray.length ∧ vels.length + 1 = ray.length := by
+  match ray, vels with
+  | [], _ => simp [travelTime]
+  | [a], _ => simp [travelTime]
+  | a :: b :: rest, [] => simp [travelTime]
+  | a :: b :: rest, v :: vs =>
+    by_cases h : vs.length = rest.length
+    · rw [travelTime_eq_sum t a b rest v vs h]; simp [h]
+    · rw [travelTime, go_none t b rest vs _ h]; simp [h]
+
+end travel
+
+section travelLegs
+variable {α : Type} [Add α] [Sub α] [Mul α] [Div α] [Neg α] [LT α] [DecidableLT α] [LE α] [DecidableLE α]
+
+/-- the `k`-th summand's size is the reported size of the incoming leg at interface `k+1`
+    (equivalently, by `inc_eq_out_reversed`, of an outgoing leg of the reversed ray) -/
+theorem legSizes_getElem? (t : Trig α) (ray : List (Node α)) (k : Nat) :
+    (legSizes t ray)[k]? = (incLeg t ray (k + 1)).map (·.size) := by
+  unfold legSizes incLeg
+  rw [List.getElem?_zipWith, List.getElem?_tail]
+  simp only [Nat.add_one_ne_zero, if_false, Nat.add_sub_cancel]
+  cases h1 : ray[k]? <;> cases h2 : ray[k+1]? <;> simp [legAt]
+
+end travelLegs
+
+section travelSum
+variable {K : Type} [AddMonoid K] [Sub K] [Mul K] [Div K]
+
+omit [Sub K] [Mul K] [Div K] in
+theorem foldl_add_eq (l : List K) (a : K) : l.foldl (· + ·) a = a + l.sum := by
+  induction l generalizing a with
+  | nil => simp
+  | cons x l ih => simp [ih, add_assoc]
+
+/-- in an additive monoid the accumulated travel time is the sum of the list `size_k / v_k` -/
+theorem travelTime_eq_list_sum (t : Trig K) (ray : List (Node K)) (vels : List K)
+    (h2 : 2 ≤ ray.length) (hv : vels.length + 1 = ray.length) :
+    travelTime t ray vels = some (List.zipWith (fun s v => s / v) (legSizes t ray) vels).sum := by
+  match ray, vels with
+  | [], _ => simp at h2
+  | [a], _ => simp at h2
+  | a :: b :: rest, [] => simp at hv
+  | a :: b :: rest, v :: vs =>
+    rw [travelTime_eq_sum t a b rest v vs (by simpa using hv), foldl_add_eq]
+    simp
+
+end travelSum
+
+section real
+
+/-- the real instance of the external routines -/
+noncomputable def tR : Trig ℝ :=
+  { sqrt := Real.sqrt, acos := Real.arccos, atan2 := fun y x => Complex.arg ⟨x, y⟩, pi := Real.pi, two := 2 }
+
+theorem legAt_signed (here : Node ℝ) (other : P3 ℝ) (side : Option Bool) :
+    (legAt tR here other side).signed =
+      signedLegAngle tR (legAt tR here other side).polar (legAt tR here other side).azimuth := rfl
+
+/-- **Unsigned (polar) angle range**: `[0, π]` -/
+theorem unsigned_range (here : Node ℝ) (other : P3 ℝ) (side : Option Bool) :
+    0 ≤ (legAt tR here other side).polar ∧ (legAt tR here other side).polar ≤ Real.pi :=
+  ⟨Real.arccos_nonneg _, Real.arccos_le_pi _⟩
+
+/-- the azimuth lies in `(−π, π]` -/
+theorem azimuth_range (here : Node ℝ) (other : P3 ℝ) (side : Option Bool) :
+    -Real.pi < (legAt tR here other side).azimuth ∧ (legAt tR here other side).azimuth ≤ Real.pi :=
+  ⟨Complex.neg_pi_lt_arg _, Complex.arg_le_pi _⟩
+
+/-- **Conventional angle range** -/
+theorem conventional_range (here : Node ℝ) (other : P3 ℝ) (side : Bool) :
+    ∃ c, (legAt tR here other (some side)).conventional = some c ∧
+      c = (if side then (legAt tR here other (some side)).polar
+            else Real.pi - (legAt tR here other (some side)).polar) ∧
+      0 ≤ c ∧ c ≤ Real.pi := by
+  obtain ⟨h0, h1⟩ := unsigned_range here other (some side)
+  refine ⟨_, rfl, rfl, ?_⟩
+  cases side
+  · simp only [Bool.false_eq_true, if_false]
+    constructor <;> [exact sub_nonneg.mpr h1; exact sub_le_self _ h0]
+  · exact ⟨h0, h1⟩
+
+/-- the signed angle has the magnitude of the polar angle -/
+theorem signed_abs_eq (here : Node ℝ) (other : P3 ℝ) (side : Option Bool) :
+    |(legAt tR here other side).signed| = (legAt tR here other side).polar := by
+  obtain ⟨h0, _⟩ := unsigned_range here other side
+  show |signedLegAngle tR _ _| = _
+  unfold signedLegAngle
+  split
+  · exact abs_of_nonneg h0
+  · rw [abs_neg]; exact abs_of_nonneg h0
+
+/-- the sign is `+` exactly in the azimuth window `(−π/2, π/2]` (or the angle is zero) -/
+theorem signed_eq_polar_iff (here : Node ℝ) (other : P3 ℝ) (side : Option Bool) :
+    (legAt tR here other side).signed = (legAt tR here other side).polar ↔
+      (-(Real.pi / 2) < (legAt tR here other side).azimuth ∧ (legAt tR here other side).azimuth ≤ Real.pi / 2)
+        ∨ (legAt tR here other side).polar = 0 := by
+  rw [legAt_signed, signed_rule]
+  by_cases h : -(Real.pi / 2) < (legAt tR here other side).azimuth ∧ (legAt tR here other side).azimuth ≤ Real.pi / 2
+  · have h' : -(tR.pi / tR.two) < (legAt tR here other side).azimuth ∧ (legAt tR here other side).azimuth ≤ tR.pi / tR.two := h
+    rw [if_pos h']
+    simp [h]
+  · have h' : ¬ (-(tR.pi / tR.two) < (legAt tR here other side).azimuth ∧ (legAt tR here other side).azimuth ≤ tR.pi / tR.two) := h
+    rw [if_neg h']
+    simp only [h, false_or]
+    constructor
+    · intro e; linarith
+    · intro e; rw [e]; simp
+
+/-- **Signed angle**: magnitude and sign, together -/
+theorem signed_abs (here : Node ℝ) (other : P3 ℝ) (side : Option Bool) :
+    |(legAt tR here other side).signed| = (legAt tR here other side).polar ∧
+    ((legAt tR here other side).signed = (legAt tR here other side).polar ↔
+      (-(Real.pi / 2) < (legAt tR here other side).azimuth ∧ (legAt tR here other side).azimuth ≤ Real.pi / 2)
+        ∨ (legAt tR here other side).polar = 0) :=
+  ⟨signed_abs_eq here other side, signed_eq_polar_iff here other side⟩
+
+/-- the signed angle lies in `[−π, π]` -/
+theorem signed_range (here : Node ℝ) (other : P3 ℝ) (side : Option Bool) :
+    -Real.pi ≤ (legAt tR here other side).signed ∧ (legAt tR here other side).signed ≤ Real.pi := by
+  have h := signed_abs_eq here other side
+  have h1 := (unsigned_range here other side).2
+  rw [← h] at h1
+  exact abs_le.mp h1
+
+/-- the sign is `−` exactly outside the azimuth window (or the angle is zero) -/
+theorem signed_eq_neg_polar_iff (here : Node ℝ) (other : P3 ℝ) (side : Option Bool) :
+    (legAt tR here other side).signed = -(legAt tR here other side).polar ↔
+      ¬ (-(Real.pi / 2) < (legAt tR here other side).azimuth ∧ (legAt tR here other side).azimuth ≤ Real.pi / 2)
+        ∨ (legAt tR here other side).polar = 0 := by
+  rw [legAt_signed, signed_rule]
+  by_cases h : -(Real.pi / 2) < (legAt tR here other side).azimuth ∧ (legAt tR here other side).azimuth ≤ Real.pi / 2
+  · have h' : -(tR.pi / tR.two) < (legAt tR here other side).azimuth ∧ (legAt tR here other side).azimuth ≤ tR.pi / tR.two := h
+    rw [if_pos h']
+    have hn : ¬¬(-(Real.pi / 2) < (legAt tR here other side).azimuth ∧ (legAt tR here other side).azimuth ≤ Real.pi / 2) :=
+      not_not_intro h
+    constructor
+    · intro e; right; linarith
+    · rintro (e | e)
+      · exact absurd e hn
+      · rw [e]; simp
+  · have h' : ¬ (-(tR.pi / tR.two) < (legAt tR here other side).azimuth ∧ (legAt tR here other side).azimuth ≤ tR.pi / tR.two) := h
+    rw [if_neg h']
+    simp [h]
+
+/-- **Leg size = Euclidean distance** -/
+theorem leg_size_eq_dist (here : Node ℝ) (other : P3 ℝ) (side : Option Bool) :
+    (legAt tR here other side).size =
+      Real.sqrt ((other.x - here.p.x) ^ 2 + (other.y - here.p.y) ^ 2 + (other.z - here.p.z) ^ 2) := by
+  show Real.sqrt _ = _
+  congr 1
+  simp only [vsub]
+  ring
+
+/-- a leg has the same length seen from either of its two ends (outgoing leg at `k` = incoming leg at `k+1`) -/
+theorem leg_size_symm (a b : Node ℝ) (s s' : Option Bool) :
+    (legAt tR a b.p s).size = (legAt tR b a.p s').size := by
+  rw [leg_size_eq_dist, leg_size_eq_dist]
+  congr 1
+  ring
+
+theorem norm2_eq_sqrt_nsq (v : P3 ℝ) : norm2 tR v = Real.sqrt (Arim.C17.nsq v) := rfl
+
+/-- **The leg length does not depend on the local frame** (columns orthonormal) -/
+theorem radius_eq_size_of_cols (here : Node ℝ) (other : P3 ℝ) (side : Option Bool)
+    (h' : Arim.C17.Orthonormal here.frame.transpose) :
+    (legAt tR here other side).radius = (legAt tR here other side).size := by
+  show norm2 tR (fromGcs other here.frame here.p) = norm2 tR (vsub other here.p)
+  rw [norm2_eq_sqrt_nsq, norm2_eq_sqrt_nsq, fromGcs, Arim.C17.nsq_mulVec _ _ h']
+
+theorem radius_eq_size (here : Node ℝ) (other : P3 ℝ) (side : Option Bool)
+    (h : Arim.C17.Orthonormal here.frame) :
+    (legAt tR here other side).radius = (legAt tR here other side).size :=
+  radius_eq_size_of_cols here other side (Arim.C17.orthonormal_transpose _ h)
+
+
+theorem arg_window_iff (x y : ℝ) :
+    (-(Real.pi / 2) < Complex.arg ⟨x, y⟩ ∧ Complex.arg ⟨x, y⟩ ≤ Real.pi / 2) ↔ (0 < x ∨ (x = 0 ∧ 0 ≤ y)) := by
+  rw [Complex.neg_pi_div_two_lt_arg_iff, Complex.arg_le_pi_div_two_iff]
+  simp only
+  constructor
+  · rintro ⟨h1 | h1, h2 | h2⟩
+    · exact Or.inl h1
+    · exact Or.inl h1
+    · rcases h2.lt_or_eq with h | h
+      · exact Or.inl h
+      · exact Or.inr ⟨h.symm, h1⟩
+    · exact absurd h2 (not_lt.mpr h1)
+  · rintro (h | ⟨h, h'⟩)
+    · exact ⟨Or.inl h, Or.inl h.le⟩
+    · exact ⟨Or.inr h', Or.inl h.ge⟩
+
+/-- the documented reading of the azimuth window: the azimuth lies in `(−π/2, π/2]` exactly when the
+    other end of the leg has local `x > 0`, or `x = 0` and `y ≥ 0` -/
+theorem azimuth_window_iff (here : Node ℝ) (other : P3 ℝ) (side : Option Bool) :
+    (-(Real.pi / 2) < (legAt tR here other side).azimuth ∧ (legAt tR here other side).azimuth ≤ Real.pi / 2) ↔
+      (0 < (legAt tR here other side).cart.x ∨
+        ((legAt tR here other side).cart.x = 0 ∧ 0 ≤ (legAt tR here other side).cart.y)) :=
+  arg_window_iff _ _
+
+end real
+
+/-! ## non-vacuity -/
+section examples
+
+/-- dummy external routines over `ℚ` (structure theorems do not look inside them) -/
+def tQ : Trig ℚ := { sqrt := id, acos := id, atan2 := fun y x => y - x, pi := 3, two := 2 }
+
+def idFrame : M3 ℚ := ⟨⟨1, 0, 0⟩, ⟨0, 1, 0⟩, ⟨0, 0, 1⟩⟩
+/-- a three-interface ray with all the kinds of flags -/
+def ray3 : List (Node ℚ) :=
+  [⟨⟨0, 0, 0⟩, idFrame, none, some true⟩, ⟨⟨1, 0, 0⟩, idFrame, some false, some true⟩,
+   ⟨⟨1, 2, 0⟩, idFrame, some true, none⟩]
+
+example : incLeg tQ ray3 1 = outLeg tQ (RayGeom.reverseRay ray3) 1 := inc_eq_out_reversed tQ ray3 1 (by decide)
+example : incLeg tQ ray3 2 = outLeg tQ (RayGeom.reverseRay ray3) 0 := inc_eq_out_reversed tQ ray3 2 (by decide)
+example : outLeg tQ ray3 0 = incLeg tQ (RayGeom.reverseRay ray3) 2 := out_eq_inc_reversed tQ ray3 0 (by decide)
+example : (incLeg tQ ray3 1).isSome ∧ (incLeg tQ ray3 2).isSome ∧ (outLeg tQ ray3 0).isSome ∧ (outLeg tQ ray3 1).isSome :=
+  ⟨(inc_isSome_iff _ _ _).2 (by decide), (inc_isSome_iff _ _ _).2 (by decide),
+   (out_isSome_iff _ _ _).2 (by decide), (out_isSome_iff _ _ _).2 (by decide)⟩
+/-- the incoming leg at interface 2: size `0+4+0 = 4` (dummy `sqrt = id`), conventional angle declared -/
+example : (incLeg tQ ray3 2).map (·.size) = some 4 := by
+  simp [incLeg, ray3, legAt, norm2, vsub, tQ]; norm_num
+example : (incLeg tQ ray3 2).map (·.cart) = some ⟨0, -2, 0⟩ := by
+  simp [incLeg, ray3, legAt, fromGcs, mulVec, dot, vsub, idFrame]
+/-- undeclared side at the last interface's outgoing flag, seen as the incoming flag of the reversed ray -/
+example : (incLeg tQ (RayGeom.reverseRay ray3) 0) = none := first_has_no_inc _ _
+example : (outLeg tQ (RayGeom.reverseRay ray3) 1).map (·.conventional) = some (some (3 - (0 / 1))) := by
+  simp [outLeg, RayGeom.reverseRay, ray3, legAt, fromGcs, mulVec, dot, vsub, idFrame, norm2, tQ]
+/-- travel time of `ray3` with velocities `1, 2`: `1/1 + 4/2 = 3` (dummy `sqrt = id`) -/
+example : travelTime tQ ray3 [1, 2] = some 3 := by
+  rw [travelTime_eq_list_sum tQ ray3 [1, 2] (by decide) (by decide)]
+  simp [legSizes, ray3, norm2, vsub, tQ]; norm_num
+example : travelTime tQ ray3 [1] = none := by
+  have := travelTime_isSome_iff tQ ray3 [1]
+  simpa [ray3] using this
+
+/-- a real 3-4-5 leg seen from the origin in a frame rotated by the 3-4-5 rotation about z -/
+noncomputable def hereR : Node ℝ :=
+  ⟨⟨0, 0, 0⟩, ⟨⟨3/5, -(4/5), 0⟩, ⟨4/5, 3/5, 0⟩, ⟨0, 0, 1⟩⟩, some true, some false⟩
+
+theorem hereR_orthonormal : Arim.C17.Orthonormal hereR.frame := by
+  constructor <;> simp only [hereR, dot] <;> norm_num
+
+example : (legAt tR hereR ⟨3, 4, 0⟩ none).size = 5 := by
+  rw [leg_size_eq_dist]
+  have : ((3 : ℝ) - hereR.p.x) ^ 2 + (4 - hereR.p.y) ^ 2 + (0 - hereR.p.z) ^ 2 = 5 ^ 2 := by
+    simp only [hereR]; norm_num
+  rw [this, Real.sqrt_sq (by norm_num)]
+example : (legAt tR hereR ⟨3, 4, 0⟩ none).radius = (legAt tR hereR ⟨3, 4, 0⟩ none).size :=
+  radius_eq_size hereR _ _ hereR_orthonormal
+
+end examples
 end Arim.C05
